@@ -598,8 +598,8 @@ def isSeqOrSet (t : String) : Bool := t = "SEQUENCE" ∨ t = "SET"
 
 mutual
   /-- `get_type_descriptors(…, ['SEQUENCE', 'SET'])` followed by the member loop: the DEFAULT of a
-  descriptor is converted iff it is a direct member (not inside a `[[ ]]` group) of a descriptor
-  whose 'type' is SEQUENCE or SET (`conv`) -/
+  descriptor is converted iff it is a member (directly, or inside a `[[ ]]` group: the loop runs over
+  `flatten(members)` since the repair e7652f0) of a descriptor whose 'type' is SEQUENCE or SET (`conv`) -/
   def defDesc (sk : Skel) (numeric : Bool) (mn : String) (conv : Bool) : Desc → Desc
     | .mk a b => .mk (if conv then convAttrs sk numeric mn a else a) (defBody sk numeric mn (isSeqOrSet a.type) b)
   termination_by structural d => d
@@ -615,12 +615,12 @@ mutual
   def defItem (sk : Skel) (numeric : Bool) (mn : String) (c : Bool) : Item → Item
     | .marker => .marker
     | .compOf r => .compOf r
-    | .group g => .group (defDescs sk numeric mn g)
+    | .group g => .group (defDescs sk numeric mn c g)
     | .desc d => .desc (defDesc sk numeric mn c d)
   termination_by structural i => i
-  def defDescs (sk : Skel) (numeric : Bool) (mn : String) : List Desc → List Desc
+  def defDescs (sk : Skel) (numeric : Bool) (mn : String) (c : Bool) : List Desc → List Desc
     | [] => []
-    | d :: t => defDesc sk numeric mn false d :: defDescs sk numeric mn t
+    | d :: t => defDesc sk numeric mn c d :: defDescs sk numeric mn c t
   termination_by structural l => l
 end
 
